@@ -135,7 +135,7 @@ func c13Run(c *Ctx) {
 		lit := "{" + strings.Join(props, ", ") + "}"
 		plit := "{" + strings.Join(plain, ", ") + "}"
 		var src string
-		switch r.Intn(12) {
+		switch r.Intn(14) {
 		case 0: // side effects of initialisers in source order
 			src = Lines(Fun("p", "t, v", " "+Print("t")+" "+Ret("v")+" "), Var("o", lit), Print("o"))
 		case 1: // repeated listings of an unmodified object
@@ -159,6 +159,10 @@ func c13Run(c *Ctx) {
 				Var("t", "{a\u0323\u0302: 1, \u1ea1\u0302: 2, m: 0, n: 0, p: 0}"), Print("t"), BI("delete", "t", "\"\u1ead\"")+";", Print("t"), Print(BI("keys", "t")))
 		case 10: // min / max handed an object (not an array) whose values make the result order-sensitive
 			src = Lines(Var("o", "{a: "+BI("sqrt", "-1")+", b: 1, c: 2, d: 0, e: (-0), f: 3}"), Print(BI("values", "o")), Print(BI("min", BI("values", "o"))), Print(BI("max", "o")), Print(BI("min", "o")))
+		case 11: // several arrays that each contain themselves, held by one object; printed repeatedly
+			src = Lines(Var("ka", "[0]"), "ka[0] = ka;", Var("kb", "[0, 1]"), "kb[0] = kb;", Var("kc", "[0]"), "kc[0] = [kc];", Var("o", "{p: ka, q: kb, r: 5, s: kc, t: ka}"), Print("o"), Print("o"), Print("[o, ka]"), Print("ka"), Print("o"))
+		case 12: // literals made of constants and bare names, several of them undefined
+			src = Lines(Var("def", "1"), Print(`"x"`), Var("o", "{"+perm[0]+": 1, "+perm[1]+": নেই_ক, m1: def, m2: নেই_খ, m3: \"s\", m4: নেই_গ, m5: নেই_ঘ}"), Print("o"))
 		default: // listing used as data
 			src = Lines(Var("o", plit), Var("acc", `""`), Var("ks", BI("keys", "o")), For(Var("i", "0"), "i < "+BI("len", "ks"), "i = i + 1", "{ acc = acc + ks[i] + \",\"; }"), Print("acc"))
 		}
